@@ -166,7 +166,7 @@ def gen_stimuli(consts):
 # 2. driver build
 # ----------------------------------------------------------------------------------------------
 DRV_DEFAULTS = dict(NA=2, NB=2, ELEM=0, ALLOC=1, POCCA=0, POCMA=0, POCS=0, AE=0, CONSTRUCT=0, SIZET=64,
-                    MAXSZ=0, SOCCC=0, VECTOR=0, SPACESHIP=0, std='c++17', cxx='g++', san=False, opt='-O1')
+                    MAXSZ=0, SOCCC=0, VECTOR=0, SPACESHIP=0, GDB=0, std='c++17', cxx='g++', san=False, opt='-O1')
 
 ELEM_NAMES = ['NT', 'TM', 'MO', 'MOT', 'CO', 'TRIV', 'INT']
 
@@ -187,6 +187,8 @@ def drv_name(c):
         s += '-stdvector'
     if c.get('SPACESHIP'):
         s += '-3way'
+    if c.get('GDB'):
+        s += '-gdb'
     s += '-' + c['cxx'] + '-' + c['std'].replace('+', 'p')
     if c.get('defs'):
         s += '-' + '-'.join(c['defs'])
@@ -208,11 +210,13 @@ def build_driver(conf):
             return dict(exe=exe, name=name, conf=c, key=key)
         os.makedirs(d, exist_ok=True)
         flags = ['-std=' + c['std'], c['opt'], '-DNDEBUG', '-w', '-I', os.path.join(REPO, 'source', 'include')]
-        for k in ('NA', 'NB', 'ELEM', 'ALLOC', 'POCCA', 'POCMA', 'POCS', 'AE', 'CONSTRUCT', 'SIZET', 'MAXSZ', 'SOCCC', 'VECTOR', 'SPACESHIP'):
+        for k in ('NA', 'NB', 'ELEM', 'ALLOC', 'POCCA', 'POCMA', 'POCS', 'AE', 'CONSTRUCT', 'SIZET', 'MAXSZ', 'SOCCC', 'VECTOR', 'SPACESHIP', 'GDB'):
             flags.append('-DCFG_%s=%s' % (k, c[k]))
         flags.append('-DCFG_NAME="%s"' % name)
         for dname in c.get('defs', []):
             flags.append('-D' + dname)
+        if c.get('GDB'):
+            flags += ['-g', '-O0', '-fno-eliminate-unused-debug-symbols']
         if c['san']:
             flags += ['-fsanitize=address,undefined', '-fno-sanitize-recover=undefined', '-g', '-fno-omit-frame-pointer']
         p = subprocess.run([c['cxx']] + flags + ['-o', exe + '.tmp', src], stdout=subprocess.PIPE, stderr=subprocess.STDOUT)
